@@ -14,18 +14,22 @@
        points, and monotone;
      * the 2-D sort-and-sweep of HypervolumeCalculator2D.h equals hv_spec in dimension 2 for every
        arrangement of the points that is sorted by the first objective (std::sort leaves ties
-       unspecified) and for the model's insertion sort in particular.
+       unspecified) and for the model's insertion sort in particular;
+     * fast_nds (model of FastNonDominatedSort.h: domination counts + front peeling with the fuel the
+       code's loop structure provides) = rank_list on every point set of uniform dimension
+       (C13_fast_sort: loop invariant "after k fronts the counts are the numbers of not yet peeled
+       dominators and the front is exactly the set of points of rank k+1");
+     * contrib2d_ref (model of HypervolumeContribution2D.h: lexicographic sort, sentinels, the term
+       (x_next - x)(y_prev - y)) = contrib_spec = hv_spec S - hv_spec (S without p) for every mutually
+       non-dominated 2-D set below the reference point, duplicates included (contribution 0), for every
+       order std::sort may leave equal points in; hence the k smallest / largest reported contributions
+       are the k extremal true contributions (theorems C13_contrib2d_...).
    NOT PROVED, only compared on every run (tools/c13.py, exact integer arithmetic):
-     * fast_nds (model of FastNonDominatedSort.h: domination counts + front peeling) = rank_list:
-       the full statement is in the comment at C13_fast_sort_partial below; the model is executed
-       next to rank_list on every generated case and must agree;
-     * DC sort, the dispatcher, 3-D sweep, HOY, WFG, 2-D/3-D/MD contributions, 2-D subset
+     * DC sort, the dispatcher, 3-D sweep, HOY, WFG, 3-D/MD contributions, 2-D subset
        selection: differential test of the C++ against rank_list / hv_spec / contrib_spec /
-       best_subset_hv (extracted) and against an independent Python monitor;
-     * contrib2d_ref (model of HypervolumeContribution2D.h) = contrib_spec on mutually
-       non-dominated sets: compared on every run, not proved. *)
-From Coq Require Import List ZArith Permutation.
-From SharkV Require Import ListAux C13Model C13Proofs.
+       best_subset_hv (extracted) and against an independent Python monitor. *)
+From Coq Require Import List ZArith Permutation Sorted.
+From SharkV Require Import ListAux C13Model C13Proofs C13ProofsFast C13ProofsContrib.
 Import ListNotations.
 
 (* ---- dominance *)
@@ -76,16 +80,24 @@ Theorem C13_rank_fronts_consistent :
 Proof. exact rank_fronts_consistent. Qed.
 Print Assumptions C13_rank_fronts_consistent.
 
-(* Full statement wanted for the model of fastNonDominatedSort (NOT proved; compared on every run):
-     forall d S, same_dim d S -> fast_nds S = rank_list S.
-   Proved part: on the example set (ties, duplicates, three fronts) both give the same ranks, and
-   the hypotheses of the rank theorems are satisfiable. *)
-Theorem C13_fast_sort_partial :
+(* the model of fastNonDominatedSort computes the rank definition (full statement) *)
+Theorem C13_fast_sort :
+  forall d S, same_dim d S -> fast_nds S = rank_list S.
+Proof. exact fast_nds_eq_rank_list. Qed.
+Print Assumptions C13_fast_sort.
+
+Theorem C13_fast_sort_satisfies_definition :
+  forall d S, same_dim d S -> is_rank_assignment S (fast_nds S).
+Proof. exact fast_nds_is_rank. Qed.
+Print Assumptions C13_fast_sort_satisfies_definition.
+
+(* the hypotheses are satisfiable: example set with ties, duplicates and three fronts *)
+Theorem C13_fast_sort_example :
   same_dim 2 [[1; 5]; [2; 3]; [2; 3]; [4; 4]; [3; 1]; [5; 5]; [1; 5]]%Z /\
   rank_list [[1; 5]; [2; 3]; [2; 3]; [4; 4]; [3; 1]; [5; 5]; [1; 5]]%Z = [1; 1; 1; 2; 1; 3; 1] /\
   fast_nds [[1; 5]; [2; 3]; [2; 3]; [4; 4]; [3; 1]; [5; 5]; [1; 5]]%Z = [1; 1; 1; 2; 1; 3; 1].
 Proof. exact rank_example. Qed.
-Print Assumptions C13_fast_sort_partial.
+Print Assumptions C13_fast_sort_example.
 
 (* ---- hypervolume spec *)
 Theorem C13_hv_permutation_invariant :
@@ -133,3 +145,77 @@ Theorem C13_hv2d_example :
   hv2d [6; 6]%Z [[1; 5]; [2; 3]; [2; 3]; [4; 4]; [3; 1]]%Z = 19%Z.
 Proof. exact hv2d_example. Qed.
 Print Assumptions C13_hv2d_example.
+
+(* ---- 2-D hypervolume contributions (HypervolumeContribution2D.h) *)
+Theorem C13_contrib2d_correct :
+  forall ref S, length ref = 2 -> below_ref ref S -> mutually_nondominated S ->
+    Permutation (contrib2d_ref ref S) (combine (contribs_spec ref S) (seq 0 (length S))).
+Proof. exact contrib2d_ref_correct. Qed.
+Print Assumptions C13_contrib2d_correct.
+
+Theorem C13_contrib2d_correct_strictly_below :
+  forall ref S, length ref = 2 -> strictly_below ref S -> mutually_nondominated S ->
+    Permutation (contrib2d_ref ref S) (combine (contribs_spec ref S) (seq 0 (length S))).
+Proof. exact contrib2d_ref_correct_strict. Qed.
+Print Assumptions C13_contrib2d_correct_strictly_below.
+
+Theorem C13_contrib2d_value_per_index :
+  forall ref S, length ref = 2 -> below_ref ref S -> mutually_nondominated S ->
+  forall v i, In (v, i) (contrib2d_ref ref S) <-> (i < length S /\ v = contrib_spec ref S i).
+Proof. exact contrib2d_ref_value. Qed.
+Print Assumptions C13_contrib2d_value_per_index.
+
+Theorem C13_contrib2d_correct_any_tie_order :
+  forall r0 r1 S L s, below_ref [r0; r1] S -> mutually_nondominated S ->
+    Permutation L (indexed S) -> StronglySorted lexR L ->
+    Permutation (contribs r1 (L ++ [((r0, 0%Z), s)]))
+                (combine (contribs_spec [r0; r1] S) (seq 0 (length S))).
+Proof. exact contribs_any_tie_order. Qed.
+Print Assumptions C13_contrib2d_correct_any_tie_order.
+
+Theorem C13_contrib_duplicate_is_zero :
+  forall (ref : point) (S : list point) i j, i < length S -> j < length S -> i <> j ->
+    nth i S [] = nth j S [] -> contrib_spec ref S i = 0%Z.
+Proof. exact contrib_spec_duplicate. Qed.
+Print Assumptions C13_contrib_duplicate_is_zero.
+
+Theorem C13_contrib2d_duplicate_is_zero :
+  forall ref S v i j, length ref = 2 -> below_ref ref S -> mutually_nondominated S ->
+    In (v, i) (contrib2d_ref ref S) -> j < length S -> i <> j -> nth i S [] = nth j S [] -> v = 0%Z.
+Proof. exact contrib2d_ref_duplicate. Qed.
+Print Assumptions C13_contrib2d_duplicate_is_zero.
+
+Theorem C13_contrib2d_smallest_k :
+  forall ref S k, length ref = 2 -> below_ref ref S -> mutually_nondominated S ->
+    smallest_k k (map fst (contrib2d_ref ref S)) = smallest_k k (contribs_spec ref S).
+Proof. exact smallest_k_contrib2d. Qed.
+Print Assumptions C13_contrib2d_smallest_k.
+
+Theorem C13_contrib2d_largest_k :
+  forall ref S k, length ref = 2 -> below_ref ref S -> mutually_nondominated S ->
+    largest_k k (map fst (contrib2d_ref ref S)) = largest_k k (contribs_spec ref S).
+Proof. exact largest_k_contrib2d. Qed.
+Print Assumptions C13_contrib2d_largest_k.
+
+Theorem C13_contrib2d_smallest_k_extremal :
+  forall ref S k, length ref = 2 -> below_ref ref S -> mutually_nondominated S -> k <= length S ->
+    k_extremal Z.le k (smallest_k k (map fst (contrib2d_ref ref S))) (contribs_spec ref S).
+Proof. exact smallest_k_contrib2d_extremal. Qed.
+Print Assumptions C13_contrib2d_smallest_k_extremal.
+
+Theorem C13_contrib2d_largest_k_extremal :
+  forall ref S k, length ref = 2 -> below_ref ref S -> mutually_nondominated S -> k <= length S ->
+    k_extremal Z.ge k (largest_k k (map fst (contrib2d_ref ref S))) (contribs_spec ref S).
+Proof. exact largest_k_contrib2d_extremal. Qed.
+Print Assumptions C13_contrib2d_largest_k_extremal.
+
+Theorem C13_contrib2d_example :
+  let S := [[1; 5]; [2; 3]; [4; 2]; [2; 3]; [5; 1]]%Z in
+  strictly_below [6; 6]%Z S /\ below_ref [6; 6]%Z S /\ mutually_nondominated S /\
+  contrib2d_ref [6; 6]%Z S = [(1%Z, 0); (0%Z, 1); (0%Z, 3); (1%Z, 2); (1%Z, 4)] /\
+  contribs_spec [6; 6]%Z S = [1; 0; 1; 0; 1]%Z /\
+  smallest_k 2 (map fst (contrib2d_ref [6; 6]%Z S)) = [0; 0]%Z /\
+  largest_k 2 (map fst (contrib2d_ref [6; 6]%Z S)) = [1; 1]%Z.
+Proof. exact contrib2d_example. Qed.
+Print Assumptions C13_contrib2d_example.
+
